@@ -127,30 +127,67 @@ def run_parent(pid, mod, tier, sd, nshards=None, timeout=None):
     os.makedirs(EVID, exist_ok=True)
     cases = mod.cases(tier, sd)
     ncpu = os.cpu_count() or 4
-    nshards = nshards or max(1, min(ncpu, len(cases)))
+    mem_gb = float(getattr(mod, "MEM_GB", 2.0))      # peak resident size of one shard
+    try:
+        with open("/proc/meminfo") as f:
+            avail = next(int(l.split()[1]) for l in f if l.startswith("MemAvailable")) / 1048576
+    except Exception:
+        avail = 64.0
+    nshards = nshards or max(1, min(ncpu, len(cases), int(0.7 * avail / mem_gb)))
     timeout = timeout or getattr(mod, "TIMEOUT", {}).get(tier, 3000)
     env = dict(os.environ, OMP_NUM_THREADS="1", OPENBLAS_NUM_THREADS="1",
                MKL_NUM_THREADS="1", PYTHONHASHSEED="0", VERIF_SEED=str(sd),
                VERIF_TIER=tier, PYTHONDONTWRITEBYTECODE="1")
-    procs = []
-    for s in range(nshards):
-        out = os.path.join(WORK, f"{pid}.{tier}.{sd}.{os.getpid()}.{s}.jsonl")
-        if os.path.exists(out):
-            os.remove(out)
-        cmd = [PY, os.path.join(ROOT, "check.py"), pid, "--tier", tier,
-               "--seed", str(sd), "--shard", f"{s}/{nshards}", "--out", out]
-        log = open(out + ".log", "w")
-        procs.append((s, out, log, subprocess.Popen(
-            cmd, env=env, cwd=ROOT, stdout=log, stderr=subprocess.STDOUT)))
     deadline = t0 + timeout
-    watchdog = 0
-    for s, out, log, p in procs:
-        try:
-            p.wait(timeout=max(1, deadline - time.time()))
-        except subprocess.TimeoutExpired:
-            p.kill()
-            watchdog += 1
-        log.close()
+
+    def launch(shards, parallel):
+        """run the given shards, at most `parallel` at a time; returns #watchdog kills"""
+        pending, running, killed = list(shards), [], 0
+        while pending or running:
+            while pending and len(running) < parallel:
+                s = pending.pop(0)
+                out = os.path.join(WORK, f"{pid}.{tier}.{sd}.{os.getpid()}.{s}.jsonl")
+                if os.path.exists(out):
+                    os.remove(out)
+                cmd = [PY, os.path.join(ROOT, "check.py"), pid, "--tier", tier,
+                       "--seed", str(sd), "--shard", f"{s}/{nshards}", "--out", out]
+                log = open(out + ".log", "w")
+                running.append((s, out, log, subprocess.Popen(
+                    cmd, env=env, cwd=ROOT, stdout=log, stderr=subprocess.STDOUT)))
+            still = []
+            for s, out, log, p in running:
+                if p.poll() is None:
+                    if time.time() > deadline:
+                        p.kill()
+                        p.wait()
+                        killed += 1
+                        log.close()
+                    else:
+                        still.append((s, out, log, p))
+                else:
+                    log.close()
+            running = still
+            if running:
+                time.sleep(0.2)
+        return killed
+
+    def complete(s):
+        out = os.path.join(WORK, f"{pid}.{tier}.{sd}.{os.getpid()}.{s}.jsonl")
+        if not os.path.exists(out):
+            return False
+        with open(out) as f:
+            return any('"shard_done"' in line for line in f)
+
+    watchdog = launch(range(nshards), nshards)
+    # a shard that died without the watchdog firing (e.g. killed by the kernel
+    # under memory pressure from other jobs) is re-run once, two at a time
+    lost = [s for s in range(nshards) if not complete(s)]
+    retried = []
+    if lost and not watchdog and time.time() < deadline:
+        retried = list(lost)
+        watchdog += launch(lost, 2)
+    procs = [(s, os.path.join(WORK, f"{pid}.{tier}.{sd}.{os.getpid()}.{s}.jsonl"), None, None)
+             for s in range(nshards)]
     results, done = [], 0
     crashed = []
     for s, out, log, p in procs:
